@@ -451,11 +451,20 @@ pub fn run(a: &Args) {
     }
     if prop == "C09" {
         // raw constructors (requests and responses) followed by further additions in varying order
-        let adds: [(&str, u8); 6] = [("status-message", 1), ("job-id", 1), ("detailed-status-message", 1), ("job-state", 2), ("printer-state", 4), ("requesting-user-name", 1)];
-        for k in 0..48usize {
+        let adds: [(&str, u8); 7] = [("status-message", 1), ("job-id", 1), ("detailed-status-message", 1), ("job-uri", 1), ("job-state", 2), ("printer-state", 4), ("requesting-user-name", 1)];
+        for k in 0..84usize {
             let mut counts: HashMap<Vec<String>, (u8, u64)> = HashMap::new();
             for _inst in 0..instances {
-                let mut req = if k % 2 == 0 {
+                let mut req = if k % 6 == 4 {
+                    // a message whose operation-attributes group is not the first group in memory
+                    let mut r0 = IppRequestResponse::new_response(IppVersion::v1_1(), StatusCode::SuccessfulOk, k as u32);
+                    let opg = r0.attributes_mut().groups_mut().remove(0);
+                    let mut jg = IppAttributeGroup::new(DelimiterTag::JobAttributes);
+                    jg.attributes_mut().insert("job-id".into(), IppAttribute::new("job-id", IppValue::Integer(3)));
+                    r0.attributes_mut().groups_mut().push(jg);
+                    r0.attributes_mut().groups_mut().push(opg);
+                    r0
+                } else if k % 2 == 0 {
                     IppRequestResponse::new_response(IppVersion::v1_1(), StatusCode::SuccessfulOk, k as u32)
                 } else {
                     IppRequestResponse::new(IppVersion::v2_0(), Operation::GetJobAttributes, if k % 4 == 1 { Some(TARGETS[k % TARGETS.len()].parse().unwrap()) } else { None })
@@ -463,7 +472,7 @@ pub fn run(a: &Args) {
                 // a rotation of the additions, so that every one is sometimes first / last
                 for j in 0..(1 + k % adds.len()) {
                     let (name, tag) = adds[(k + j * 5) % adds.len()];
-                    let v = if name == "job-id" { IppValue::Integer(9) } else if name.ends_with("state") { IppValue::Enum(3) } else { IppValue::TextWithoutLanguage(format!("t{}", j)) };
+                    let v = if name == "job-id" { IppValue::Integer(9) } else if name == "job-uri" { IppValue::Uri("ipp://h/jobs/9".into()) } else if name.ends_with("state") { IppValue::Enum(3) } else { IppValue::TextWithoutLanguage(format!("t{}", j)) };
                     req.attributes_mut().add(DelimiterTag::from_u8(tag).unwrap(), IppAttribute::new(name, v));
                 }
                 let bytes = req.to_bytes();
